@@ -175,8 +175,14 @@ def run(ctx):
         blocks = []
         for _ in range(rnd.randint(0, 5)):
             cls = rnd.choice([gt.CodeBlock, gt.DataBlock])
+            kw = {}
+            if cls is gt.CodeBlock and rnd.random() < 0.5:
+                # attributes C19 does not mention must not matter to it
+                kw["decode_mode"] = rnd.choice(list(gt.CodeBlock.DecodeMode))
+                ctx.count("code_blocks_with_explicit_decode_mode")
             blocks.append(cls(offset=rnd.randint(0, 26),
-                              size=rnd.randint(0, 8), byte_interval=bi))
+                              size=rnd.randint(0, 8), byte_interval=bi,
+                              **kw))
 
         # a second interval built from the very bytearray object the first
         # one exposes: the two must not share storage afterwards
@@ -301,7 +307,10 @@ def run(ctx):
                 if not blocks:
                     continue
                 b = rnd.choice(blocks)
-                if rnd.random() < 0.5:
+                k = rnd.random()
+                if k < 0.15 and isinstance(b, gt.CodeBlock):
+                    b.decode_mode = rnd.choice(list(gt.CodeBlock.DecodeMode))
+                elif k < 0.55:
                     b.offset = rnd.randint(0, 26)
                 else:
                     b.size = rnd.randint(0, 8)
